@@ -117,6 +117,7 @@ public:
       const opentelemetry::common::KeyValueIterable &,
       const trace_api::SpanContextKeyValueIterable &) noexcept override
   {
+    hz::HarnessCode hc_;
     Script s = script_for(name);
     std::unique_ptr<const std::map<std::string, opentelemetry::common::AttributeValue>> attrs;
     if (s.attrs)
@@ -139,6 +140,7 @@ public:
   SeqIdGenerator() : sdktrace::IdGenerator(false) {}
   trace_api::SpanId GenerateSpanId() noexcept override
   {
+    hz::HarnessCode hc_;
     uint64_t v    = ++span_;
     uint8_t b[8];
     for (int i = 0; i < 8; ++i)
@@ -148,6 +150,7 @@ public:
   }
   trace_api::TraceId GenerateTraceId() noexcept override
   {
+    hz::HarnessCode hc_;
     uint64_t v     = ++trace_;
     uint8_t b[16]  = {0x7e};
     for (int i = 0; i < 8; ++i)
@@ -192,11 +195,13 @@ class CaptureExporter final : public sdktrace::SpanExporter
 public:
   std::unique_ptr<sdktrace::Recordable> MakeRecordable() noexcept override
   {
+    hz::HarnessCode hc_;
     return std::unique_ptr<sdktrace::Recordable>(new sdktrace::SpanData);
   }
   sdkcommon::ExportResult Export(
       const nostd::span<std::unique_ptr<sdktrace::Recordable>> &spans) noexcept override
   {
+    hz::HarnessCode hc_;
     for (auto &r : spans)
     {
       auto *sd    = static_cast<sdktrace::SpanData *>(r.get());
@@ -212,8 +217,8 @@ public:
     vsim::yield();
     return sdkcommon::ExportResult::kSuccess;
   }
-  bool ForceFlush(std::chrono::microseconds) noexcept override { return true; }
-  bool Shutdown(std::chrono::microseconds) noexcept override { return true; }
+  bool ForceFlush(std::chrono::microseconds) noexcept override { hz::HarnessCode hc_; return true; }
+  bool Shutdown(std::chrono::microseconds) noexcept override { hz::HarnessCode hc_; return true; }
 };
 
 std::shared_ptr<sdktrace::Sampler> make_sampler(int kind)
@@ -374,7 +379,13 @@ void do_start(TaskState &ts, const Op &op)
   }
   std::string name = fmt("t%ds%lld", ts.idx, (long long)op.a);
   vsim::yield();
-  auto span = W->tracer->StartSpan(name, opts);
+  nostd::shared_ptr<trace_api::Span> span;
+  {
+    // the API operation proper: harness bookkeeping (shared id sets, other tasks' records) stays
+    // outside, where no call-boundary preemption happens
+    InOp io;
+    span = W->tracer->StartSpan(name, opts);
+  }
   vsim::yield();
   rec.span    = span;
   rec.started = true;
@@ -558,7 +569,6 @@ void run_program(int idx, const TaskProg &t)
   for (const Op &op : t.ops)
   {
     vsim::yield();
-    InOp io;
     switch (op.kind)
     {
       case OP_START:
@@ -567,7 +577,10 @@ void run_program(int idx, const TaskProg &t)
       case OP_SCOPE_BEGIN:
         if (op.b >= 0 && op.b < kScopes && mine[op.a % kSpans].started && !ts.scopes[op.b])
         {
-          ts.scopes[op.b].reset(new trace_api::Scope(mine[op.a % kSpans].span));
+          {
+            InOp io;
+            ts.scopes[op.b].reset(new trace_api::Scope(mine[op.a % kSpans].span));
+          }
           ts.scope_span[op.b] = (int)(op.a % kSpans);
           ts.active.push_back((int)(op.a % kSpans));
           if (ts.active.size() >= 7)
@@ -581,7 +594,10 @@ void run_program(int idx, const TaskProg &t)
         if (op.a >= 0 && op.a < kScopes && ts.scopes[op.a] && !ts.active.empty() &&
             ts.active.back() == ts.scope_span[op.a])
         {
-          ts.scopes[op.a].reset();
+          {
+            InOp io;
+            ts.scopes[op.a].reset();
+          }
           ts.active.pop_back();
         }
         break;
@@ -591,7 +607,10 @@ void run_program(int idx, const TaskProg &t)
       case OP_END:
         if (mine[op.a].started && !mine[op.a].ended)
         {
-          mine[op.a].span->End();
+          {
+            InOp io;
+            mine[op.a].span->End();
+          }
           mine[op.a].ended = true;
         }
         break;
@@ -629,6 +648,7 @@ void run_program(int idx, const TaskProg &t)
 void generate(const std::string &, Rng &wl, Rng &fl, Case &c)
 {
   vsim::SimKnobs sk;
+  sk.allow_call_points = true;
 
   sk.faults_on   = false;
   sk.typical_len = 300;
